@@ -259,6 +259,12 @@ def Table.spawns (T : Table) : List (Nat × Nat) :=
   (T.calls.filter fun c => c.kind == .spawn).map fun c =>
     ((T.methods[c.caller]?.map (·.name)).getD 0, (T.methods[c.callee]?.map (·.name)).getD 0)
 
+/-- the class owning the lifecycle state (run_, reset_, teardown_, filtering_step_, mutex, condition variable) -/
+def lifecycleClass : Nat := name% "FilteringAlgorithm"
+
+/-- the only thread creation of the library: `boot()` hands `filtering_recursion` to `std::thread` -/
+def spawnSite : Nat × Nat := (name% "FilteringAlgorithm::boot", name% "FilteringAlgorithm::filtering_recursion")
+
 /-- ids used by the rows and edges exist -/
 def Table.wfB (T : Table) : Bool :=
   (T.accesses.all fun a => decide (a.field < T.fields.length) && decide (a.meth < T.methods.length)) &&
